@@ -127,9 +127,10 @@ Record Inv2 (mx : nat) (s : st) : Prop := {
   (* low items are in front of the chaser that covers them *)
   i_cov_up : forall l1 i r l2, q s ++ rq s = l1 ++ Data i r :: l2 -> 1 <= r <= hwm s ->
                exists c, covers s r c /\ (In (Fin c) l2 \/ exists b, In (Fin (c - 1)) (inq (get_bp s b)));
-  i_cov_doom : forall b i r, In (i, r) (doom (get_bp s b)) -> r < hwm s ->
-               exists c X Y, covers s (S r) c /\ inq (get_bp s b) = X ++ Fin (c - 1) :: Y /\
-                             In (i, r) (datas (pre (get_bp s b) ++ X))
+  i_cov_doom : forall b i r, refusing (get_bp s b) = true -> In (i, r) (datas (seg1 (get_bp s b))) -> r < hwm s ->
+               exists c Y, covers s (S r) c /\ inq (get_bp s b) = pre_m (inq (get_bp s b)) ++ Fin (c - 1) :: Y;
+  i_cov_seg2 : forall b i r, cl (get_bp s b) = true -> In (i, r) (datas (seg2 (get_bp s b))) -> hwm s <= r;
+  i_seg1_low : forall b, has_m (inq (get_bp s b)) = true -> Forall (fun x => snd x < hwm s) (datas (seg1 (get_bp s b)))
 }.
 
 (* ---------------------------------------------------------------- layer 3: order *)
